@@ -29,6 +29,8 @@ func init() {
 			ruleResumeRestoresConnected(r, "R9", "Upstream")
 			ruleNoSwallowedErrors(r, "R10", 30, false, "/iscp")
 			ruleC02R11(r)
+			r.borrow("C05", func() { ruleC05R6(r) }) // the outage watcher moves the stream to Resuming from every live status (a draining stream must be resumed too)
+			ruleAlwaysCancels(r, "R12")
 			r.borrow("C07", func() { ruleC07R1(r) }) // the shared store is keyed by stream id (anchor iscp/storage.go)
 			ruleC01R8(r)
 		},
